@@ -926,6 +926,7 @@ class Engine:
             i = fint(it_name)
             h.env[it_name] = i
             h.env['i_'] = i
+            h.env['__iter@%d' % s.lineno] = i      # the iterator's own position: a body that re-binds the loop variable (an inner loop with the same name) does not move it
             span = z3.If(hi >= lo, hi, lo)
             h.assume(z3.And(i >= lo, i <= span))
         for c in inv + inv_default:
@@ -958,7 +959,8 @@ class Engine:
         for ln, x, blab in backs:
             extra = {}
             if it_name:
-                nxt = x.env[it_name] + 1 if isint(x.env.get(it_name)) else fint('i')
+                cur = x.env.get('__iter@%d' % s.lineno, x.env.get(it_name))
+                nxt = cur + 1 if isint(cur) else fint('i')
                 extra = {it_name: nxt, 'i_': nxt}
             for c in inv + inv_default:
                 if c.label.startswith('A-'):
